@@ -1,6 +1,7 @@
 package massdb_v1
 
 import (
+	"bytes"
 	"encoding/hex"
 	"errors"
 	"os"
@@ -206,6 +207,10 @@ func OpenDB(args ...interface{}) (massdb.MassDB, error) {
 	if !ok {
 		return nil, ErrDBWrongType
 	}
+	if err = checkHeaderMatchesArgs(&hmB.HashMap, pubKey, bitLength); err != nil {
+		hmB.Close()
+		return nil, err
+	}
 
 	var hmA *HashMapA
 	hmA = nil
@@ -217,6 +222,11 @@ func OpenDB(args ...interface{}) (massdb.MassDB, error) {
 		hmA, ok = hmAi.(*HashMapA)
 		if !ok {
 			return nil, ErrDBWrongType
+		}
+		if err = checkHeaderMatchesArgs(&hmA.HashMap, pubKey, bitLength); err != nil {
+			hmA.Close()
+			hmB.Close()
+			return nil, err
 		}
 	}
 
@@ -260,6 +270,13 @@ func CreateDB(args ...interface{}) (massdb.MassDB, error) {
 	if !ok {
 		return nil, ErrDBWrongType
 	}
+	for _, hm := range []*HashMap{&hmA.HashMap, &hmB.HashMap} {
+		if err = checkHeaderMatchesArgs(hm, pubKey, bitLength); err != nil {
+			hmA.Close()
+			hmB.Close()
+			return nil, err
+		}
+	}
 
 	return &MassDBV1{
 		HashMapA:   hmA,
@@ -270,6 +287,16 @@ func CreateDB(args ...interface{}) (massdb.MassDB, error) {
 		pubKey:     pubKey,
 		pubKeyHash: pocutil.PubKeyHash(pubKey),
 	}, nil
+}
+
+// checkHeaderMatchesArgs makes sure the loaded file really belongs to the public key and bit length it was
+// opened for (both are taken from the file name by callers).
+func checkHeaderMatchesArgs(hm *HashMap, pubKey *pocec.PublicKey, bitLength int) error {
+	if hm.bl != bitLength || hm.pk == nil || pubKey == nil ||
+		!bytes.Equal(hm.pk.SerializeCompressed(), pubKey.SerializeCompressed()) {
+		return ErrDBDoesNotMatchArgs
+	}
+	return nil
 }
 
 func getPath(rootPath string, ordinal int, pubKey *pocec.PublicKey, bitLength int) (pathA, pathB string) {
